@@ -6,6 +6,9 @@ import (
 	"go/token"
 	"go/types"
 	"math/big"
+	"os"
+	"os/exec"
+	"path/filepath"
 	"sort"
 	"strings"
 
@@ -108,6 +111,8 @@ type fnExec struct {
 	havocked      []string
 	macros        map[string]bool
 	exhaustOnly   bool
+	exitTag       string
+	pruned        int
 	caseIdx       int // -1: no case split; k: verifying case k of the contract's `cases`
 }
 
@@ -1238,6 +1243,10 @@ func (fx *fnExec) addEdge(from, to *ssa.BasicBlock, cond Term) {
 		fx.checkBackEdge(li, cond)
 		return
 	}
+	if fx.ctr != nil && fx.ctr.Opts["prune"] == "on" && fx.infeasible(cond) {
+		fx.pruned++
+		return
+	}
 	fx.inEdges[to] = append(fx.inEdges[to], edge{from, to, cond, fx.st.clone()})
 }
 
@@ -1424,6 +1433,25 @@ func (fx *fnExec) finish() {
 	if len(fx.exits) == 0 {
 		return
 	}
+	if fx.ctr != nil && fx.ctr.Opts["exits"] == "separate" && len(fx.exits) > 1 {
+		// postconditions are checked at every return site on its own state (no merged exit state)
+		all := fx.exits
+		var cs []Term
+		for _, x := range all {
+			cs = append(cs, x.cond)
+		}
+		for i, x := range all {
+			fx.exits = []exitRec{x}
+			fx.exitTag = fmt.Sprintf("@ret%d", i+1)
+			fx.finishOne()
+		}
+		fx.exitTag = ""
+		return
+	}
+	fx.finishOne()
+}
+
+func (fx *fnExec) finishOne() {
 	var es []edge
 	var rs []SV
 	var cs []Term
@@ -1444,7 +1472,7 @@ func (fx *fnExec) finish() {
 	}
 	where := fx.pos(fx.fn.Pos())
 	// exit reachable (vacuity)
-	fx.obls = append(fx.obls, &Obligation{Name: fx.name + "/vacuity:exit", Kind: "vacuity", Func: fx.name, Mode: fx.mode,
+	fx.obls = append(fx.obls, &Obligation{Name: fx.name + "/vacuity:exit" + fx.exitTag, Kind: "vacuity", Func: fx.name, Mode: fx.mode,
 		Prefix: len(fx.assumps), NDecl: -1, Goal: tNot(rc), Expect: "reach", fx: fx})
 	if fx.ctr == nil {
 		return
@@ -1452,11 +1480,11 @@ func (fx *fnExec) finish() {
 	env := fx.exitEnv(res)
 	fx.runHooks("return", "", env, where)
 	if p := fx.ctr.PanicsIff; p != nil && p.inMode(fx.mode) {
-		fx.oblige("panics_iff:return", "panics_iff", tNot(fx.evalClause(*p, fx.entryEnv())), where, "normal return ==> !("+p.Src+")")
+		fx.oblige("panics_iff:return"+fx.exitTag, "panics_iff", tNot(fx.evalClause(*p, fx.entryEnv())), where, "normal return ==> !("+p.Src+")")
 	}
 	for _, a := range fx.ctr.Asserts {
 		if a.At == "return" && a.C.inMode(fx.mode) {
-			fx.oblige("assert"+lbl(a.C), "assert", fx.evalBool(a.C.E, env), where, a.C.Src)
+			fx.oblige("assert"+lbl(a.C)+fx.exitTag, "assert", fx.evalBool(a.C.E, env), where, a.C.Src)
 		}
 	}
 	for k, c := range fx.ctr.Ensures {
@@ -1483,7 +1511,7 @@ func (fx *fnExec) finish() {
 			fx.assume(goal)
 			continue
 		}
-		fx.oblige(fmt.Sprintf("post%d%s", k+1, lbl(c)), "post", goal, where, c.Src)
+		fx.oblige(fmt.Sprintf("post%d%s%s", k+1, lbl(c), fx.exitTag), "post", goal, where, c.Src)
 	}
 }
 
@@ -1541,7 +1569,7 @@ func (fx *fnExec) checkFrame() {
 		}
 		pp := strings.TrimSuffix(p, "*")
 		for _, d := range fx.ctr.Modifies {
-			if d == "all" || d == p {
+			if d == "all" || d == p || d == pp {
 				return true
 			}
 			if strings.HasSuffix(d, "*") && strings.HasPrefix(pp, strings.TrimSuffix(d, "*")) {
@@ -1626,4 +1654,24 @@ func (fx *fnExec) touchType(t types.Type, seen map[string]bool, depth int) {
 			fx.touchType(u.Field(i).Type(), seen, depth+1)
 		}
 	}
+}
+
+// infeasible asks the solver (briefly) whether a branch condition contradicts what is known on this path; an
+// infeasible edge is dropped from the VC.  Dropping only infeasible edges is sound; `unknown` keeps the edge.
+func (fx *fnExec) infeasible(cond Term) bool {
+	o := &Obligation{Name: fx.name + "/prune", Prefix: len(fx.assumps), Goal: tNot(cond), fx: fx}
+	dir := os.TempDir()
+	file := filepath.Join(dir, fmt.Sprintf("govc_prune_%d_%x.smt2", os.Getpid(), hashStr(fx.name+cond.S+fmt.Sprint(len(fx.assumps)))))
+	os.WriteFile(file, []byte(o.smt(false)), 0o644)
+	defer os.Remove(file)
+	cmd := exec.Command("z3-new", "-t:300", "smt.array.extensional=false", file)
+	out, _ := cmd.CombinedOutput()
+	for _, ln := range strings.Split(string(out), "\n") {
+		ln = strings.TrimSpace(ln)
+		if ln == "" || strings.HasPrefix(ln, "WARNING") {
+			continue
+		}
+		return ln == "unsat"
+	}
+	return false
 }
